@@ -224,23 +224,24 @@ example : parseComment none (BS.ofS "<!--a--b--->x") = .ok (.cm (BS.ofS "a--b-")
 example : parseComment none (BS.ofS "<!--a-- >b-->x") = .ok (.cm (BS.ofS "a")) 9 none := by decide
 example : parseComment none (BS.ofS "<!-- a>b -->x") = .ok (.cm (BS.ofS " a>b ")) 12 none := by decide
 
-/-- **start tags round-trip.** For the writer `writeTag name attrs = <name k="v" …>` (names and attribute names over
-    `[a-z][a-z0-9]*`, values without `"`; `str.lower` leaves the names alone and `html.unescape` the values — true of the
-    real functions when the values contain no `&`), `parse_starttag` calls `handle_starttag(name, [(k, v), …])` with
-    exactly the written attributes in order, returns the index just after the `>`, and switches CDATA mode on exactly
-    for `script`/`style`. -/
-theorem starttag_roundtrip (P : Params) (cd : Option PStr) (name rest : PStr) (attrs : List (PStr × PStr))
-    (hn : NameOK name) (hl : P.lower name = name) (ha : ∀ kv ∈ attrs, AttrOK kv)
-    (hP : ∀ kv ∈ attrs, P.lower kv.1 = kv.1 ∧ P.unescape kv.2 = kv.2) :
-    parseStartTag P cd (writeTag name attrs ++ rest) =
-      .ok (.st name (attrs.map fun kv => (kv.1, some kv.2))) (writeTag name attrs).length
-        (if cdataContentElements.contains name then some name else cd) :=
-  parseStartTag_write P cd name rest attrs hn hl ha hP
+/-- **start tags round-trip.** For the writer `writeTag name attrs slash` = `<name k="w" j …>` or `<name k="w" j …/>`
+    (names and attribute names over `[a-z][-.:_a-z0-9]*`, written values `w` without `"`, an attribute without value as
+    its bare name; `str.lower` leaves the names alone), `parse_starttag` calls `handle_starttag` / `handle_startendtag`
+    with the name and exactly the written attributes in order — value: quotes stripped and `html.unescape`d (`valOf`),
+    `None` where none was written —, returns the index just after the `>`, and switches CDATA mode on exactly for a
+    `<script>`/`<style>` start tag. -/
+theorem starttag_roundtrip (P : Params) (cd : Option PStr) (name rest : PStr) (attrs : List (PStr × Option PStr))
+    (slash : Bool) (hn : NameOK name) (hl : P.lower name = name) (ha : ∀ kv ∈ attrs, AttrOK kv)
+    (hP : ∀ kv ∈ attrs, P.lower kv.1 = kv.1) :
+    parseStartTag P cd (writeTag name attrs slash ++ rest) =
+      .ok (startTok slash name (attrs.map fun kv => (kv.1, kv.2.map (valOf P)))) (writeTag name attrs slash).length
+        (if slash then cd else if cdataContentElements.contains name then some name else cd) :=
+  parseStartTag_write P cd name rest attrs slash hn hl ha hP
 
-example : writeTag (BS.ofS "a") [(BS.ofS "k", BS.ofS "v w"), (BS.ofS "j2", [])] = BS.ofS "<a k=\"v w\" j2=\"\">" := by decide
-example : AttrOK (BS.ofS "j2", BS.ofS "v w>") := ⟨⟨106, [50], by decide, by decide, by decide⟩, by decide⟩
-example : parseStartTag P0 none (BS.ofS "<a k=\"v w\" j2=\"\">x") =
-    .ok (.st (BS.ofS "a") [(BS.ofS "k", some (BS.ofS "v w")), (BS.ofS "j2", some [])]) 17 none := by decide
+example : writeTag (BS.ofS "a") [(BS.ofS "k", some (BS.ofS "v w")), (BS.ofS "j2", none)] true = BS.ofS "<a k=\"v w\" j2/>" := by decide
+example : AttrOK (BS.ofS "j-2", some (BS.ofS "v w>")) := ⟨⟨106, [45, 50], by decide, by decide, by decide⟩, by decide⟩
+example : parseStartTag P0 none (BS.ofS "<a k=\"v w\" j2/>x") =
+    .ok (.se (BS.ofS "a") [(BS.ofS "k", some (BS.ofS "v w")), (BS.ofS "j2", none)]) 15 none := by decide
 example : parseStartTag P0 none (BS.ofS "<h1>x") = .ok (.st (BS.ofS "h1") []) 4 none := by decide
 example : parseStartTag P0 none (BS.ofS "<style>x") = .ok (.st (BS.ofS "style") []) 7 (some (BS.ofS "style")) := by decide
 /-- other quoting (outside the writer's grammar): checked on a concrete tag -/
